@@ -762,6 +762,7 @@ type Client struct {
 	CloseDone   bool
 	CloseAt     uint64
 	CloseDoneAt uint64
+	CloseDoneT  time.Duration // simulated time at which the closer returned
 	FirstPipe   int
 }
 
@@ -855,6 +856,7 @@ func (c *Client) Close(e *Env) {
 	c.mu.Lock()
 	c.CloseDone = true
 	c.CloseDoneAt = e.S.Step()
+	c.CloseDoneT = e.S.Now()
 	c.mu.Unlock()
 	simrt.Rec("close-return", c.Name, "", 0)
 	if c.Transport != nil {
